@@ -22,6 +22,9 @@ pub(super) enum State<'a, 'p> {
     DoThunk(GcView<ThunkData<'p>>),
     GotThunk(GcView<ThunkData<'p>>, PendingThunk<'p>),
     DeepValue,
+    // Marks that the asserts of an object are being checked. It is
+    // popped once all of them have passed.
+    ObjectAssertsGuard(GcView<ObjectData<'p>>),
     SwapLastValues,
     CoerceToString,
     CoerceAppendToString,
